@@ -6,6 +6,9 @@ import M3d.Lemmas.FlipLoop
 import M3d.Lemmas.FlipSurgery
 import M3d.Lemmas.FillLoop
 import M3d.Lemmas.SubdivVolume
+import M3d.Lemmas.BlurIter
+import M3d.Lemmas.ArapOp
+import M3d.Lemmas.DeformTargets
 /-!
 # C10 — mesh processing keeps closed oriented manifolds closed, oriented, manifold
 
@@ -400,5 +403,136 @@ example :
       -- the fan around the removed vertex 0 has the rim 1…8; fan minus filling is closed
       (fillLoop chord 10 [1,2,3,4,5,6,7,8]).map (fun ts =>
         closedManifold (ts ++ [(9,1,2),(9,2,3),(9,3,4),(9,4,5),(9,5,6),(9,6,7),(9,7,8),(9,8,1)])) = some true := by decide
+
+/-! ## `Blur` / `BlurFiltered` with several rates -/
+
+/-- **`blur_rates_are_successive_iterations`** — "If multiple rates are passed, then multiple
+iterations of the algorithm are performed in succession".  For the loop of `BlurFiltered` as it
+is (two buffers, `copy(coords, newCoords)` after every rate), every neighbour structure, every
+field: (1) `Blur(r1…, r2…)` is `Blur(r1…)` followed by `Blur(r2…)` on the same indexed mesh — in
+particular `Blur(a, b) = Blur(a).Blur(b)`; (2) one rate is one iteration; (3) an iteration keeps
+the number of vertices; (4) in every iteration vertex `i` gets the published rule applied to the
+positions of itself and of its neighbours BEFORE that iteration (none of them already moved).
+The driver executes `blurRates` at `Rat` on the real coordinates (dyadic inputs, neighbour counts
+a power of two: every Go float operation is exact) and demands EQUAL output (`blur-rule`). -/
+theorem blur_rates_are_successive_iterations {K : Type} [Field K] [DecidableEq K] (nbrs : Nat → List Nat)
+    (d : V3 K) (r1 r2 : List K) (r : K) (cs : List (V3 K)) :
+    blurRates nbrs d (r1 ++ r2) cs = blurRates nbrs d r2 (blurRates nbrs d r1 cs) ∧
+      blurRates nbrs d [r] cs = blurStep nbrs d r cs ∧
+      (blurStep nbrs d r cs).length = cs.length ∧
+      ∀ i, i < cs.length →
+        (blurStep nbrs d r cs)[i]? = some (blurRule r (cs.getD i d) ((nbrs i).map (cs.getD · d))) :=
+  ⟨blurRates_append nbrs d r1 r2 cs, rfl, blurStep_length nbrs d r cs,
+    fun _ hi => blurStep_getElem? nbrs d r cs hi⟩
+
+/-- **`blur_rate0_iterations_id`**: iterations with rate 0 change nothing, wherever they stand in
+the list of rates (`Blur(0, …, 0)` is the identity, `Blur(r…, 0, s…) = Blur(r…, s…)`). -/
+theorem blur_rate0_iterations_id {K : Type} [Field K] [DecidableEq K] (nbrs : Nat → List Nat) (d : V3 K)
+    (zs : List K) (hz : ∀ r ∈ zs, r = 0) (r1 r2 : List K) (cs : List (V3 K)) :
+    blurRates nbrs d zs cs = cs ∧ blurRates nbrs d (r1 ++ zs ++ r2) cs = blurRates nbrs d (r1 ++ r2) cs := by
+  refine ⟨blurRates_zeros nbrs d zs hz cs, ?_⟩
+  rw [blurRates_append, blurRates_append, blurRates_zeros nbrs d zs hz, ← blurRates_append]
+
+/-- **`blur_rate1_twice_mean_of_means`**: `Blur(1, 1)` puts vertex `i` at the mean, over its
+neighbours `n`, of the mean of the ORIGINAL positions of the neighbours of `n`. -/
+theorem blur_rate1_twice_mean_of_means {K : Type} [Field K] [DecidableEq K] [CharZero K] (nbrs : Nat → List Nat)
+    (d : V3 K) (cs : List (V3 K)) (i : Nat) (hi : i < cs.length) (hne : nbrs i ≠ [])
+    (hn : ∀ n ∈ nbrs i, n < cs.length ∧ nbrs n ≠ []) :
+    let mean := fun (ps : List (V3 K)) => (ps.foldl V3.add V3.zero).scale (1 / (ps.length : K))
+    (blurRates nbrs d [1, 1] cs)[i]? =
+      some (mean ((nbrs i).map fun n => mean ((nbrs n).map (cs.getD · d)))) := by
+  intro mean
+  have e : blurRates nbrs d [1, 1] cs = blurStep nbrs d 1 (blurStep nbrs d 1 cs) := rfl
+  rw [e, blurStep_getElem? nbrs d 1 _ (by rw [blurStep_length]; exact hi)]
+  have hmap : (nbrs i).map ((blurStep nbrs d 1 cs).getD · d) =
+      (nbrs i).map fun n => mean ((nbrs n).map (cs.getD · d)) := by
+    apply List.map_congr_left
+    intro n hnm
+    obtain ⟨hlt, hnn⟩ := hn n hnm
+    rw [List.getD_eq_getElem?_getD, blurStep_getElem? nbrs d 1 cs hlt, Option.getD_some,
+      blurRule_rate1 _ _ (by simpa using hnn)]
+  rw [hmap, blurRule_rate1 _ _ (by simpa using hne)]
+
+/-- Four mutually adjacent vertices (a tetrahedron) at `e₁, e₂, e₃, 0`, `Blur(1, 1)`: the loop as
+it is returns the mean of the means; the loop whose two buffers are aliased after the first rate
+(`coords = newCoords`, seeded change C10-5) lets later vertices read already moved ones and
+returns something else — although with ONE rate (also `Blur(1).Blur(1)`) both agree. -/
+example :
+    let nbrs : Nat → List Nat := fun i => (List.range 4).filter (· != i)
+    let cs : List (V3 Rat) := [⟨1, 0, 0⟩, ⟨0, 1, 0⟩, ⟨0, 0, 1⟩, ⟨0, 0, 0⟩]
+    let z : V3 Rat := ⟨0, 0, 0⟩
+    blurRates nbrs z [1, 1] cs = [⟨1/3, 2/9, 2/9⟩, ⟨2/9, 1/3, 2/9⟩, ⟨2/9, 2/9, 1/3⟩, ⟨2/9, 2/9, 2/9⟩] ∧
+      blurRatesAliased nbrs z [1, 1] cs =
+        [⟨1/3, 2/9, 2/9⟩, ⟨1/3, 8/27, 5/27⟩, ⟨1/3, 23/81, 20/81⟩, ⟨1/3, 65/243, 53/243⟩] ∧
+      blurRatesAliased nbrs z [1] (blurRatesAliased nbrs z [1] cs) = blurRates nbrs z [1, 1] cs := by
+  decide +kernel
+
+/-! ## `ARAP`: constraint elimination, `SeqDeformer` -/
+
+section Arap
+open M3d.ArapOp
+
+/-- **`arap_update_is_fresh_operator`**: `arapOperator.Update(constraints)` — which keeps the
+index maps `squeezedToFull`/`fullToSqueezed` (and the Cholesky factor that depends only on them)
+when the new constraints have as many keys as the old ones and every new key is an old key —
+returns exactly the operator `newARAPOperator` would build for the new constraints.  (Go maps:
+distinct keys.)  The reuse is sound because equally many distinct keys, all among the old keys,
+ARE the old keys. -/
+theorem arap_update_is_fresh_operator {P : Type} {op : Op P} (hf : Fresh op) {cons : List (Nat × P)}
+    (hc : (keys cons).Nodup) : update op cons = newOp op.n cons := update_eq_newOp hf hc
+
+/-- **`arap_seq_deformer_meets_constraints`** — "deformation meets its positional constraints
+exactly", for `ARAP.SeqDeformer` called any number of times with any constraint sets (same
+handles with new targets, other handles, more or fewer handles), either `coldStart` value and
+whatever the numerical part computes (`solve`: Laplacian solve, rotations, iteration count,
+initial guess — it may depend on the operator and on the previous frame): in the coordinates
+returned for every frame, every constrained vertex `k < n` sits exactly on its target; and the
+frames are those of a deformer that builds a new operator for every call (`Deform`). -/
+theorem arap_seq_deformer_meets_constraints {P : Type} (n : Nat) (z : P) (solve : Op P → List P → List P)
+    (frames : List (List (Nat × P))) (hnd : ∀ f ∈ frames, (keys f).Nodup) (cur : List P) :
+    (∀ fr ∈ seqFrames update n z solve (none, cur) frames, ∀ kp ∈ fr.1, kp.1 < n → fr.2[kp.1]? = some kp.2) ∧
+      seqFrames update n z solve (none, cur) frames =
+        seqFrames (fun _ c => newOp n c) n z solve (none, cur) frames :=
+  ⟨seqFrames_meet n z solve frames hnd _ (seqInv_init n cur),
+    seqFrames_update_eq n z solve frames hnd _ (seqInv_init n cur)⟩
+
+/-- Three vertices, the solver answers `7` for every free vertex.  Frame 1 constrains vertex 0 to
+`10`, frame 2 constrains vertex 1 to `20` (same NUMBER of handles, another vertex).  The code as
+it is returns `[10,7,7]` and `[7,20,7]`.  With the membership test of `Update` iterating the OLD
+map (seeded change C10-6: a tautology) the second frame keeps the index maps of the first:
+vertex 1 is treated as free (`7`, not `20`) and vertex 0 is filled from the new map, where it is
+missing (`0`). -/
+example :
+    let solve : Op Nat → List Nat → List Nat := fun _ _ => [7, 7]
+    let frames : List (List (Nat × Nat)) := [[(0, 10)], [(1, 20)]]
+    (seqFrames update 3 0 solve (none, []) frames).map (·.2) = [[10, 7, 7], [7, 20, 7]] ∧
+      (seqFrames updateStale 3 0 solve (none, []) frames).map (·.2) = [[10, 7, 7], [0, 7, 7]] := by
+  decide
+
+/-- **`arap_constraints_visible_in_output`** — what the driver evaluates on every real output of
+`ARAP.Deform` / `SeqDeformer` (a `*Mesh` does not say which output vertex came from which input
+vertex).  If the output soup is (a rearrangement of) the input soup with every vertex `v` moved to
+`f v` (`coordsToMesh`) and the constraints are met (`f k = t` for every constraint `k ↦ t`, ids
+of coordinates), then every target of a mesh vertex is a vertex of the output
+(`constraint-targets-visible`) and, when `f` is injective on the mesh's vertices, the target
+carries exactly as many faces as the constrained vertex did (`constraint-stars`).  So a `FAIL` of
+either check proves that NO vertex map meeting the constraints produced this output. -/
+theorem arap_constraints_visible_in_output {f : Nat → Nat} {inp out : List Tri} (hout : out.Perm (relabel f inp))
+    {cons : List (Nat × Nat)} (hmet : ∀ kp ∈ cons, f kp.1 = kp.2) :
+    targetsVisible cons inp out = true ∧ (InjOn f (vertsAll inp) → starsAgree cons inp out = true) :=
+  ⟨targetsVisible_of_met hout hmet, fun hf => starsAgree_of_met hout hf hmet⟩
+
+/-- A tetrahedron whose vertex 3 is constrained to the new point 9: moving 3 to 9 passes both
+checks; an output in which vertex 3 went elsewhere (8) fails the first; an output in which the
+target 9 was given to vertex 0 … passes only as long as the stars have equal size (they do on a
+tetrahedron: necessary conditions, not a complete test). -/
+example :
+    let tet : List Tri := [(0,1,2),(0,2,3),(0,3,1),(1,3,2)]
+    targetsVisible [(3, 9)] tet (relabel (fun v => if v = 3 then 9 else v) tet) = true ∧
+      starsAgree [(3, 9)] tet (relabel (fun v => if v = 3 then 9 else v) tet) = true ∧
+      targetsVisible [(3, 9)] tet (relabel (fun v => if v = 3 then 8 else v) tet) = false := by
+  decide
+
+end Arap
 
 end M3d.C10
